@@ -625,6 +625,58 @@ func TestC12(t *testing.T) {
 			}
 		}
 	})
+	c12AfterAdditions(t, rec)
+}
+
+// c12AfterAdditions: "now and after any addition" - lints of every kind are registered one at a time through
+// the public API while the registry is in use; after each addition the registry, and small views of it that
+// hold CRL / OCSP lints only, must still agree with themselves.
+func c12AfterAdditions(t *testing.T, rec *stats.Rec) {
+	g := lint.GlobalRegistry()
+	for i := range lateKinds {
+		registerLate(i + 1)
+		rec.Eval()
+		rec.Class("after_addition")
+		rec.NT(stats.HashS("addition", lateName(i)))
+		bad := func(sig, msg string) {
+			if rec.Report("c12-lookup", "after-addition|"+sig, msg, c12Case{"after-addition", lateName(i)}) {
+				t.Errorf("c12 after registering %s: %s: %s", lateName(i), sig, msg)
+			}
+		}
+		checkRegistryConsistency(g, bad)
+		if g.CertificateLints().ByName(lateName(i)) == nil && g.RevocationListLints().ByName(lateName(i)) == nil && g.OcspResponseLints().ByName(lateName(i)) == nil {
+			bad("late-lookup|"+lateName(i), "a lint registered through the public API cannot be looked up by name")
+		}
+		// views without certificate lints: every CRL and OCSP lint (real and late) alone, in pairs across kinds, all together
+		var nonCert []string
+		for _, l := range registryLints(g) {
+			if l.Kind != "cert" {
+				nonCert = append(nonCert, l.Name)
+			}
+		}
+		sort.Strings(nonCert)
+		views := [][]string{nonCert}
+		for a := 0; a < len(nonCert); a++ {
+			views = append(views, []string{nonCert[a]})
+			for b := a + 1; b < len(nonCert); b++ {
+				views = append(views, []string{nonCert[a], nonCert[b]})
+			}
+		}
+		for vi, inc := range views {
+			if !stats.Mine(vi) {
+				continue
+			}
+			fr, err := g.Filter(lint.FilterOptions{IncludeNames: inc})
+			if err != nil {
+				bad("filter-error", fmt.Sprintf("Filter(IncludeNames %v): %v", inc, err))
+				continue
+			}
+			if len(fr.Names()) != len(inc) {
+				bad("view-size", fmt.Sprintf("view of %v holds %d lints", inc, len(fr.Names())))
+			}
+			checkRegistryConsistency(fr, func(sig, msg string) { bad("view|"+sig, fmt.Sprintf("view %v: %s", inc, msg)) })
+		}
+	}
 }
 
 func init() {
